@@ -29,7 +29,8 @@ type sigEntry struct {
 }
 
 type mintOp struct {
-	K      string     `json:"k"` // reg|del|stake|mint
+	K      string     `json:"k"`               // reg|del|stake|mint|foreign
+	PType  string     `json:"ptype,omitempty"` // foreign: blobber|validator|miner|sharder record stored under provider:<id of key A>
 	A      int        `json:"a,omitempty"`
 	By     string     `json:"by,omitempty"` // owner|delegate|stranger
 	Amount uint64     `json:"amount,omitempty"`
@@ -84,7 +85,7 @@ func initKeys() {
 	}
 }
 
-func mclient(i int) string { return ct.ID("zcn mint client", i) }
+func mclient(i int) string  { return ct.ID("zcn mint client", i) }
 func delegate(i int) string { return ct.ID("zcn delegate", i) }
 
 // tok: the model's token of an authorizer id = its rank among the eight ids as strings (the contract
@@ -314,6 +315,16 @@ func runMint(h mintHist) mintRes {
 				res.outs = append(res.outs, "ZmOk")
 				res.kinds[o.K+"-ok"]++
 			}
+		case "foreign":
+			// test set-up, not a contract call and not part of the model: another contract's provider record (with a
+			// public key its owner controls) sits in the shared provider:<id> key space under the id of key A
+			ctx := sc.NewCtx(base, int64(i+2), sc.Txn(encryption.Hash(fmt.Sprintf("mint txn %d", i)), zcnOwner, zcnsc.ADDRESS, 0, 0))
+			n := zcnsc.NewAuthorizer(keys[o.A].id, keys[o.A].pk, fmt.Sprintf("http://p%d", o.A))
+			n.ProviderType = map[string]spenum.Provider{"blobber": spenum.Blobber, "validator": spenum.Validator, "miner": spenum.Miner, "sharder": spenum.Sharder}[o.PType]
+			if err := n.Save(ctx); err != nil {
+				panic(err)
+			}
+			res.kinds["foreign-provider-record-stored"]++
 		case "stake":
 			// test set-up, not a contract call: a delegate pool with this balance appears in the stake pool
 			ctx := sc.NewCtx(base, int64(i+2), sc.Txn(encryption.Hash(fmt.Sprintf("mint txn %d", i)), zcnOwner, zcnsc.ADDRESS, 0, 0))
@@ -566,6 +577,11 @@ func genMint(r *vh.Rand) mintHist {
 	if r.Chance(1, 8) {
 		h.MaxFee = r.PickU64([]uint64{1, 1000000, 1 << 40})
 	}
+	for a := 7; a <= 8; a++ { // key holders 7 and 8 are providers of other contracts in most histories
+		if r.Chance(2, 3) {
+			h.Ops = append(h.Ops, mintOp{K: "foreign", A: a, PType: []string{"blobber", "blobber", "validator", "miner", "sharder"}[r.Intn(5)]})
+		}
+	}
 	na := r.Range(1, 6)
 	reg := map[int]bool{}
 	for a := 1; a <= na; a++ {
@@ -653,6 +669,10 @@ func genMint(r *vh.Rand) mintHist {
 			}
 		case 8: // a stranger's valid-looking signature added
 			o.Sigs = append(o.Sigs, sigEntry{7 + r.Intn(2), "ok"})
+		case 18, 19: // a real signer replaced by a provider of another contract signing with its own key
+			if len(o.Sigs) > 0 {
+				o.Sigs[r.Intn(len(o.Sigs))] = sigEntry{7 + r.Intn(2), "ok"}
+			}
 		case 9:
 			o.Sigs = append(o.Sigs, sigEntry{0, "ok"})
 		case 10: // forged duplicate first, valid one last (the last entry per id is the one verified)
@@ -710,7 +730,7 @@ func mainMint(o vh.Opts) {
 	rep := vh.NewReport("zcn", "C18", o)
 	rep.Rule = "histories on the real zcnsc Execute with real BLS0Chain keys: 1-6 authorizers registered through add-authorizer (owner or stranger), stake pools with 0-2 delegate pools, " +
 		"then 2-12 of mint / delete-authorizer / re-register / stake. Each mint starts from a payload that mints (threshold..threshold+2 distinct registered signers over " +
-		"GetStringToSign) and in 18 of 22 cases carries exactly one flaw: interleaved repeat of a signer ([A, B, A]), other receiver, amount below min_mint or max_fee, used nonce, duplicate instead of a signer, one signer short, " +
+		"GetStringToSign) key holders 7/8 mostly hold a blobber/validator/miner/sharder record under provider:<id>; each mint in 20 of 22 cases carries exactly one flaw: a signer replaced by such a foreign provider, interleaved repeat of a signer ([A, B, A]), other receiver, amount below min_mint or max_fee, used nonce, duplicate instead of a signer, one signer short, " +
 		"entry signed for another amount/nonce/receiver/txn id, signed with another key, garbage signature, unregistered key holder, empty id, forged duplicate before/after the valid entry, " +
 		"malformed/empty payload, more entries than authorizers, deleted authorizer; percent_authorizers in {0, .25, .34, .5, .51, .66, .7, 1, 1.5}. After every successful mint four probes re-submit " +
 		"the signatures with the txn id / amount / nonce / receiver changed. non-trivial = a mint succeeded, a mint was refused and a fee was credited; distinct by full history"
@@ -762,6 +782,13 @@ func mainMint(o vh.Opts) {
 	// signatures made with other keys
 	handle(mintHist{Percent: 0.7, MinMint: 10, MaxFee: 6, MinStake: 0, Ops: []mintOp{{K: "reg", A: 1, By: "owner"}, {K: "reg", A: 2, By: "owner"}, {K: "reg", A: 3, By: "owner"},
 		{K: "mint", C: 0, Recv: 0, Amount: 1000000, Nonce: 77, Txn: 9, Sigs: []sigEntry{{1, "wrongkey"}, {2, "wrongkey"}, {3, "wrongkey"}}, Seed: 3}}})
+	// a blobber record under the id of key 7: [authorizer 1, blobber 7] must never make the quorum of 2, whatever the round seed
+	fh := mintHist{Percent: 0.7, MinMint: 10, MaxFee: 6, MinStake: 0, Ops: []mintOp{{K: "foreign", A: 7, PType: "blobber"}, {K: "foreign", A: 8, PType: "miner"},
+		{K: "reg", A: 1, By: "owner"}, {K: "reg", A: 2, By: "owner"}, {K: "reg", A: 3, By: "owner"}}}
+	for k := 0; k < 8; k++ {
+		fh.Ops = append(fh.Ops, mintOp{K: "mint", C: 0, Recv: 0, Amount: 100, Nonce: int64(500 + k), Txn: 60 + k, Sigs: []sigEntry{{1, "ok"}, {7 + k%2, "ok"}}, Seed: int64(11 + 7*k)})
+	}
+	handle(fh)
 	// interleaved repeats: 4 authorizers at 0.7 (threshold 3); [A, B, A] and [A, B, A, B] carry two distinct signers
 	handle(mintHist{Percent: 0.7, MinMint: 10, MaxFee: 6, MinStake: 0, Ops: []mintOp{{K: "reg", A: 1, By: "owner"}, {K: "reg", A: 2, By: "owner"}, {K: "reg", A: 3, By: "owner"}, {K: "reg", A: 4, By: "owner"},
 		{K: "mint", C: 0, Recv: 0, Amount: 100, Nonce: 1, Txn: 1, Sigs: []sigEntry{{1, "ok"}, {2, "ok"}, {1, "ok"}}, Seed: 3},
